@@ -11,31 +11,46 @@ import PdbModel.Props.C08
 namespace PdbModel
 
 /-- the three things a row can do to the models -/
-def RowModels (n : Nat) (before after : List Model) : Prop :=
+def RowModels (P : RawMOp → Prop) (n : Nat) (before after : List Model) : Prop :=
   after = before ∨ after = (rowModel before n).1 ∨
-  ∃ op : RawMOp, after = placeIn (rowModel before n).1 (rowModel before n).2 op
+  ∃ op : RawMOp, P op ∧ after = placeIn (rowModel before n).1 (rowModel before n).2 op
+
+/-- the `Model::add_atom` operation of a row: chain id and residue number with the author's cells preferred,
+insertion code, residue name and alternate location from their cells, and an atom -/
+def IsRowOp (vals : List (Option CifValue)) (op : RawMOp) : Prop :=
+  ∃ (chain resName : List Char) (num : Int),
+    ChainOf vals chain ∧ NumberOf vals num ∧ (colText ((vals[14]?).join)).val = some resName ∧
+    op.1 = String.ofList chain ∧ op.2.1.1 = num ∧
+    op.2.1.2 = (colText ((vals[17]?).join)).val.map String.ofList ∧
+    op.2.2.1.1 = String.ofList resName ∧ op.2.2.1.2 = (colText ((vals[0]?).join)).val.map String.ofList
 
 theorem placeAtom_models (s : AState) (mn : Nat) (at_ el : List Char) (c : RowCells) (o : RowOpt) :
-    RowModels mn s.models (placeAtom s mn at_ el c o).models := by
+    RowModels (fun op => op.1 = String.ofList c.chain ∧ op.2.1.1 = c.resNum ∧ op.2.1.2 = o.ins.map String.ofList ∧
+        op.2.2.1.1 = String.ofList c.resName ∧ op.2.2.1.2 = o.alt.map String.ofList)
+      mn s.models (placeAtom s mn at_ el c o).models := by
   unfold placeAtom
   simp only
   split
   · exact Or.inr (Or.inl rfl)
-  · exact Or.inr (Or.inr ⟨_, rfl⟩)
+  · exact Or.inr (Or.inr ⟨_, ⟨rfl, rfl, rfl, rfl, rfl⟩, rfl⟩)
 
 theorem placeRow_models (s : AState) (vals : List (Option CifValue)) (mn : Nat) (at_ el : List Char) (c : RowCells) :
-    RowModels mn s.models (placeRow s vals mn at_ el c).models := by
+    RowModels (fun op => op.1 = String.ofList c.chain ∧ op.2.1.1 = c.resNum ∧
+        op.2.1.2 = (colText ((vals[17]?).join)).val.map String.ofList ∧
+        op.2.2.1.1 = String.ofList c.resName ∧ op.2.2.1.2 = (colText ((vals[0]?).join)).val.map String.ofList)
+      mn s.models (placeRow s vals mn at_ el c).models := by
   unfold placeRow
   have hm := rowOptional_models s vals
+  obtain ⟨halt, hins⟩ := rowOptional_ids s vals
   rcases hro : rowOptional s vals with ⟨o, s'⟩
-  rw [hro] at hm
-  simp only at hm ⊢
+  rw [hro] at hm halt hins
+  simp only at hm halt hins ⊢
   generalize ((prepareIdentifier c.chain).isNone || (prepareIdentifierUpper c.resName).isNone ||
       (match o.ins with | some ic => (prepareIdentifierUpper ic).isNone | none => false)) = bad
   cases bad
   · simp only [Bool.false_eq_true, if_false]
     have := placeAtom_models s' mn at_ el c o
-    rw [hm] at this
+    rw [hm, halt, hins] at this
     exact this
   · simp only [if_true]
     exact Or.inl hm
@@ -45,7 +60,7 @@ def rowNumber (vals : List (Option CifValue)) : Nat := (colUsize ((vals[18]?).jo
 
 /-- **what a row does to the models**: nothing, the model of its number made sure of, or one `Model::add_atom` -/
 theorem C02_row_models (olf : Bool) (s : AState) (vals : List (Option CifValue)) :
-    RowModels (rowNumber vals) s.models (atomRowCore olf s vals).models := by
+    RowModels (IsRowOp vals) (rowNumber vals) s.models (atomRowCore olf s vals).models := by
   unfold atomRowCore rowNumber
   simp only
   generalize hg : firstModelGate olf
@@ -70,15 +85,20 @@ theorem C02_row_models (olf : Bool) (s : AState) (vals : List (Option CifValue))
       have := placeRow_models s3 vals ((colUsize ((vals[18]?).join)).val.getD 1)
         ((colText ((vals[15]?).join)).val.getD "ATOM".toList) ((colText ((vals[23]?).join)).val.getD []) c
       rw [hm, h2] at this
-      exact this
+      obtain ⟨hchain, hnum⟩ := rowCells_ids s2 s3 vals c hrc
+      have hcells := rowCells_some s2 s3 vals c hrc
+      rcases this with h | h | ⟨op, ⟨p1, p2, p3, p4, p5⟩, h⟩
+      · exact Or.inl h
+      · exact Or.inr (Or.inl h)
+      · exact Or.inr (Or.inr ⟨op, ⟨c.chain, c.resName, c.resNum, hchain, hnum, hcells.2.2.1, p1, p2, p3, p4, p5⟩, h⟩)
   · simp only [if_true]
     exact Or.inl hgm
 
 /-! ### a loop with one model number builds one model by `Model::add_atom` calls in row order -/
 
 /-- nothing yet, or the one model with number `n` that a sequence of `Model::add_atom` calls built -/
-def Built (n : Nat) (ms : List Model) : Prop :=
-  ms = [] ∨ ∃ (ops : List RawMOp) (m : Model), ms = [m] ∧ m.serial = n ∧
+def Built (P : RawMOp → Prop) (n : Nat) (ms : List Model) : Prop :=
+  ms = [] ∨ ∃ (ops : List RawMOp) (m : Model), ms = [m] ∧ m.serial = n ∧ (∀ op ∈ ops, P op) ∧
     ops.foldlM Model.addAtom { serial := n, chains := [] } = some m
 
 theorem addAtom_serial (m m' : Model) (o : RawMOp) (h : m.addAtom o = some m') : m'.serial = m.serial := by
@@ -103,41 +123,60 @@ theorem placeIn_single (m : Model) (op : RawMOp) :
   | none => exact Or.inl rfl
   | some m' => exact Or.inr ⟨m', rfl, rfl⟩
 
-theorem built_step (n : Nat) (ms ms' : List Model) (hb : Built n ms) (hr : RowModels n ms ms') : Built n ms' := by
+theorem built_step (P : RawMOp → Prop) (n : Nat) (ms ms' : List Model) (hb : Built P n ms)
+    (hr : RowModels P n ms ms') : Built P n ms' := by
   -- the model the row works on: the one there is, or a new empty one
-  have hrm : ∃ (ops : List RawMOp) (m : Model), rowModel ms n = ([m], 0) ∧ m.serial = n ∧
+  have hrm : ∃ (ops : List RawMOp) (m : Model), rowModel ms n = ([m], 0) ∧ m.serial = n ∧ (∀ op ∈ ops, P op) ∧
       ops.foldlM Model.addAtom { serial := n, chains := [] } = some m := by
-    rcases hb with rfl | ⟨ops, m, rfl, hs, hf⟩
-    · exact ⟨[], _, rowModel_nil n, rfl, rfl⟩
-    · exact ⟨ops, m, rowModel_single m n hs, hs, hf⟩
-  obtain ⟨ops, m, hrm, hs, hf⟩ := hrm
-  rcases hr with rfl | rfl | ⟨op, rfl⟩
+    rcases hb with rfl | ⟨ops, m, rfl, hs, hp, hf⟩
+    · exact ⟨[], _, rowModel_nil n, rfl, fun _ h => (by cases h), rfl⟩
+    · exact ⟨ops, m, rowModel_single m n hs, hs, hp, hf⟩
+  obtain ⟨ops, m, hrm, hs, hp, hf⟩ := hrm
+  rcases hr with rfl | rfl | ⟨op, hop, rfl⟩
   · exact hb
-  · rw [hrm]; exact Or.inr ⟨ops, m, rfl, hs, hf⟩
+  · rw [hrm]; exact Or.inr ⟨ops, m, rfl, hs, hp, hf⟩
   · rw [hrm]
     simp only
     rcases placeIn_single m op with h | ⟨m', hadd, h⟩
-    · rw [h]; exact Or.inr ⟨ops, m, rfl, hs, hf⟩
+    · rw [h]; exact Or.inr ⟨ops, m, rfl, hs, hp, hf⟩
     · rw [h]
-      refine Or.inr ⟨ops ++ [op], m', rfl, ?_, ?_⟩
+      refine Or.inr ⟨ops ++ [op], m', rfl, ?_, ?_, ?_⟩
       · rw [addAtom_serial m m' op hadd, hs]
+      · intro x hx
+        rcases List.mem_append.mp hx with hx | hx
+        · exact hp x hx
+        · simp only [List.mem_singleton] at hx; subst hx; exact hop
       · rw [List.foldlM_append, hf]
         simp only [List.foldlM_cons, List.foldlM_nil, bind, Option.bind, hadd, pure]
 
-theorem built_rows (o : ReadOpts) (n : Nat) (header : List (List Char)) (rows : List (List CifValue)) (s : AState)
-    (hn : ∀ row ∈ rows, rowNumber (rowVals header row) = n) (hb : Built n s.models) :
-    Built n (rows.foldl (fun (s : AState) (row : List CifValue) => atomRow o s (rowVals header row)) s).models := by
+theorem rowModels_mono (P Q : RawMOp → Prop) (h : ∀ op, P op → Q op) (n : Nat) (a b : List Model)
+    (hr : RowModels P n a b) : RowModels Q n a b := by
+  rcases hr with h1 | h1 | ⟨op, hp, h1⟩
+  · exact Or.inl h1
+  · exact Or.inr (Or.inl h1)
+  · exact Or.inr (Or.inr ⟨op, h op hp, h1⟩)
+
+/-- an operation that some row of the loop states -/
+def FromRows (header : List (List Char)) (rows : List (List CifValue)) (op : RawMOp) : Prop :=
+  ∃ row ∈ rows, IsRowOp (rowVals header row) op
+
+theorem built_rows (o : ReadOpts) (n : Nat) (header : List (List Char)) (all rows : List (List CifValue)) (s : AState)
+    (hsub : ∀ row ∈ rows, row ∈ all)
+    (hn : ∀ row ∈ rows, rowNumber (rowVals header row) = n) (hb : Built (FromRows header all) n s.models) :
+    Built (FromRows header all) n
+      (rows.foldl (fun (s : AState) (row : List CifValue) => atomRow o s (rowVals header row)) s).models := by
   induction rows generalizing s with
   | nil => exact hb
   | cons r rs ih =>
     simp only [List.foldl_cons]
-    apply ih _ (fun row hr => hn row (List.mem_cons_of_mem _ hr))
+    apply ih _ (fun row hr => hsub row (List.mem_cons_of_mem _ hr)) (fun row hr => hn row (List.mem_cons_of_mem _ hr))
     unfold atomRow
     split
     · exact hb
     · have := C02_row_models o.onlyFirstModel s (rowVals header r)
       rw [hn r (List.mem_cons_self ..)] at this
-      exact built_step n _ _ hb this
+      exact built_step _ n _ _ hb (rowModels_mono _ _
+        (fun op hop => ⟨r, hsub r (List.mem_cons_self ..), hop⟩) n _ _ this)
 
 /-- a successful sequence of `Model::add_atom` calls had identifiers the structs accept -/
 theorem foldlM_addAtom_norm (ops : List RawMOp) (m0 m : Model) (h : ops.foldlM Model.addAtom m0 = some m) :
@@ -160,24 +199,37 @@ theorem foldlM_addAtom_norm (ops : List RawMOp) (m0 m : Model) (h : ops.foldlM M
 atom_site loop yields no model at all (no row was placed) or exactly one model, with that number, whose chains are
 the declarative grouping (C08: one chain per chain id, one residue per number and insertion code, one conformer per
 name and alternate location, each in order of first appearance, atoms in row order under the identifiers of their
-rows) of the `Model::add_atom` operations of the placed rows -/
+rows) of `Model::add_atom` operations each of which is stated by a row of the loop: its chain id and residue number are the
+row's author cells when they have a value and the label cells otherwise, its insertion code, residue name and alternate
+location are the row's cells (`IsRowOp`) -/
 theorem C02_single_model_loop_is_grouped (o : ReadOpts) (n : Nat) (header : List (List Char))
     (rows : List (List CifValue)) (hn : ∀ row ∈ rows, rowNumber (rowVals header row) = n) :
     (parseAtoms o [] header rows).1 = [] ∨
-    ∃ (ops : List RawMOp) (nops : List MOp), ops.mapM normMOp = some nops ∧
+    ∃ (ops : List RawMOp) (nops : List MOp), (∀ op ∈ ops, FromRows header rows op) ∧ ops.mapM normMOp = some nops ∧
       (parseAtoms o [] header rows).1 = [{ serial := n, chains := specChains nops }] := by
   unfold parseAtoms
   split
   · exact Or.inl rfl
   · simp only
-    rcases built_rows o n header rows { models := [] } hn (Or.inl rfl) with h | ⟨ops, m, hm, _, hf⟩
+    rcases built_rows o n header rows rows { models := [] } (fun _ h => h) hn (Or.inl rfl) with h | ⟨ops, m, hm, _, hp, hf⟩
     · exact Or.inl h
     · obtain ⟨nops, hnops⟩ := foldlM_addAtom_norm ops _ m hf
-      refine Or.inr ⟨ops, nops, hnops, ?_⟩
+      refine Or.inr ⟨ops, nops, hp, hnops, ?_⟩
       rw [hm]
       have := C08_group_spec_model ops nops n hnops
       rw [hf] at this
       simp only [Option.some.injEq] at this
       rw [this]
+
+/-- non-vacuity: the example row of `C02Atom` states model 1 and the operation (chain A, residue 1, ALA, no alternate
+location) through its label cells, having no author cells -/
+example : rowNumber exampleRow = 1 := by decide +kernel
+example : IsRowOp exampleRow ("A", ((1, none), (("ALA", none), default))) := by
+  refine ⟨['A'], ['A', 'L', 'A'], 1, ?_, ?_, ?_, rfl, rfl, ?_, rfl, ?_⟩
+  · exact Or.inr ⟨by decide +kernel, by decide +kernel⟩
+  · exact Or.inr ⟨by decide +kernel, 0, by decide +kernel⟩
+  · decide +kernel
+  · decide +kernel
+  · decide +kernel
 
 end PdbModel
